@@ -8,6 +8,7 @@ UNIT = dict(
     items=[
         ("error_enum", "e"),
         ("impl", "p", "FeoxStore", ["flush_all"], {"header": "impl FeoxStore {"}),
+        ("impl", "p", "FeoxStore", ["drop"], {"header": "impl FeoxStore {", "trait": "Drop"}),
         ("impl", "w", "WriteBuffer", ["force_flush"], {"header": "impl WriteBuffer {"}),
     ],
     contracts="contracts.vc",
